@@ -221,17 +221,36 @@ PrimaryRules(c, acc) ==
 AllRules == {"unknown_dest", "fund_value", "fund_script", "fund_inbound", "fund_push",
              "fund_uncountersigned", "fund_nonsegwit", "fee", "velocity"}
 
-\* violated rules, given the verdict of Node::check_onchain_tx
+\* violated rules, given the verdict of Node::check_onchain_tx.
+\* UnknownDestinations means by the API contract "get these outputs approved, then sign": it is an
+\* acceptable verdict only if (a) every non-beneficial output is among the reported INDICES and
+\* (b) the rules an approval of those outputs cannot discharge hold for the transaction as a whole -
+\* whatever the order in which an implementation performs its checks.
+Undischarged(c) ==
+  IF Funds(c) /\ (\E i \in DOMAIN c.ins : ~c.ins[i].sw) THEN {"fund_nonsegwit"} ELSE {}
 Judge(c, acc, v) ==
   IF v.t = "ok" THEN Rules(c, acc)
   ELSE IF v.t = "unknown"
-  THEN IF {k - 1 : k \in NonBen(c)} \subseteq RangeOf(v.ix) THEN {} ELSE {"unreported"}
+  THEN (IF {k - 1 : k \in NonBen(c)} \subseteq RangeOf(v.ix) THEN {} ELSE {"unreported"}) \cup Undischarged(c)
   ELSE {}
 \* ... and of Approve::handle_proposed_onchain (a = [res, asked, ix])
 JudgeApprove(c, acc, a) ==
   IF a.res # "true" THEN {}
   ELSE IF a.asked THEN Judge(c, acc, V("unknown", "", a.ix))
   ELSE Judge(c, acc, VOk)
+\* OBSERVATION, not a rule: with the reported outputs approved, is what then leaves the node beyond them
+\* (inputs - beneficial - approved) above the fee-rate bound / the velocity limit?  The code at HEAD
+\* returns UnknownDestinations before its fee and velocity checks, and the approver (who is shown the
+\* transaction and the previous outputs) overrides those controls by design; counted in the evidence.
+ApprovedLoss(c, ix) ==
+  LET si == RefIn(c)
+      ok == {k \in DOMAIN c.outs : k \notin NonBen(c) \/ (k - 1) \in RangeOf(ix)}
+      f[k \in 0..Len(c.outs)] == IF k = 0 THEN Big0 ELSE IF k \in ok THEN BAdd(f[k - 1], c.outs[k].v) ELSE f[k - 1]
+      so == f[Len(c.outs)]
+  IN IF BLt(si, so) THEN Big0 ELSE BSub(si, so)
+UnknownPathExcess(c, acc, ix) ==
+  (IF BLe(FeeFloor(c), ApprovedLoss(c, ix)) THEN {"fee"} ELSE {})
+    \cup (IF ~c.pol.unl /\ BLt(c.pol.limit, BAdd(acc, BShl3(ApprovedLoss(c, ix)))) THEN {"velocity"} ELSE {})
 \* ghost: window total after an observed verdict (only an Ok check consumes velocity)
 AccAfter(c, acc, v) == IF v.t = "ok" THEN BAdd(acc, BShl3(RefLoss(c))) ELSE acc
 
